@@ -22,6 +22,23 @@ _DS = [1, 2, N - 1, N - 2, 2**128 + 7, 2**255 + 99]
 
 def _gen_verify(rng, tier):
     from buidl.pecc import PrivateKey
+    import verif.specs as sp
+    cv = sp.curve
+    # valid tuples whose R has x >= N (so r = x - N): choose R first, solve the public key Q = r^-1 (s R - z G)
+    found = 0
+    for i in range(1, 400):
+        R = cv.lift_x(N + i)
+        if R is None:
+            continue
+        found += 1
+        r = i
+        for _ in range(2):
+            s_, z_ = rng.randrange(1, N), rng.getrandbits(256)
+            Q = cv._mul(cv.inv_mod(r, N), cv._add(cv._mul(s_, R), cv._mul((-z_) % N, cv.G_)))
+            if Q is not None:
+                yield {"pub": {"__point_xy__": [Q[0], Q[1]]}, "z": z_, "r": r, "s": s_}
+        if found >= 3:
+            break
     k = 0
     for d in _DS + [rng.randrange(1, N) for _ in range(6)]:
         for z in _ZS[: (4 if tier == "quick" else 8)] + [rng.getrandbits(256)]:
